@@ -105,10 +105,10 @@ class AFMWriter(ModelToText):
                     " to " + str(_range.max_value) + "]"
 
         if len(domain.get_element_list()) > 0:
-            result += "[" + ",".join(domain.get_element_list()) + "]"
+            result += "[" + ",".join(str(e) for e in domain.get_element_list()) + "]"
 
-        result += "," + attribute.get_default_value()
-        result += "," + attribute.get_null_value()
+        result += "," + str(attribute.get_default_value())
+        result += "," + str(attribute.get_null_value())
 
         return result
 
